@@ -5,6 +5,7 @@ import Driver.Aead
 import Driver.Keyset
 import Driver.Wrap
 import Driver.Jwt
+import Driver.Mldsa
 /-!
   `tvdrv`: one line in, one line out. The first token selects the model.
   Unknown or malformed lines answer `bad-op` (never a default).
@@ -43,6 +44,10 @@ def dispatch (st : DState) (line : String) : DState × String :=
   | "J" :: rest =>
     match Driver.Jw.handle st.jwt rest with
     | some (j, out) => ({ st with jwt := j }, out)
+    | none => (st, "bad-op")
+  | "D" :: rest =>
+    match Driver.Ml.handle rest with
+    | some out => (st, out)
     | none => (st, "bad-op")
   | "K" :: rest =>
     match Driver.Ks.handle rest with
